@@ -454,17 +454,8 @@ def rule_range_safety(ctx: Ctx, rule: str) -> None:
     cmp_src = [norm_src(n) for n in walk_no_nested(rc.node) if isinstance(n, ast.Compare) and isinstance(n.left, ast.Name) and isinstance(n.comparators[0], ast.Name)]
     ctx.ob(rule, f'{WP}:WcParse._sequence_range_check/comparison', cmp_src == ['v2 < v1'], repo.loc(WP, rc.node), 'v2 < v1', str(cmp_src),
            witness="`<=` would drop the legal one-character range [a-a]")
-    rep = [s for s in walk_no_nested(sq.node) if isinstance(s, ast.Assign) and norm_src(s.targets[0]) == 'result' and isinstance(s.value, ast.List) and
-           s.value.elts and isinstance(s.value.elts[0], ast.JoinedStr)]
-    want = {"value == '[]'": "[f'[^{(ASCII_RANGE if self.is_bytes else UNICODE_RANGE)}]']", "value == '[^]'": "[f'[{(ASCII_RANGE if self.is_bytes else UNICODE_RANGE)}]']"}
-    got = {}
-    for s in rep:
-        g = [t for t, p in q.guards(s) if p == 'T' and t.startswith('value == ')]
-        if g:
-            got[g[0]] = norm_src(s.value)
-    norm = lambda d: {k: v.replace('"', "'") for k, v in d.items()}  # noqa: E731
-    ctx.ob(rule, f'{WP}:WcParse._sequence/empty-class-replacements', norm(got) == norm(want) and all(q.guarded(s, 'removed', 'T') for s in rep),
-           repo.loc(WP, sq.node), str(want), str(got), witness="fnmatch.translate('[z-a]') → a class that matches nothing; '[!z-a]' → matches any character")
+    from . import seqrules
+    seqrules.rule_sequence_epilogue(ctx, rule, which={'empty-class-replacements'})
     ar, ur = repo.const(WP, 'ASCII_RANGE'), repo.const(WP, 'UNICODE_RANGE')
     pa = rx.parse('[' + ar + ']')
     pu = rx.parse('[' + ur + ']')
